@@ -182,6 +182,46 @@ namespace verif
                 s.erase(0, 1);
             return s;
         }
+        // A number next to the edge of an integer type: 2^k + d for k in {7,8,15,16,31,32,63,64} and
+        // d in [-2, 11], in decimal or hexadecimal, sometimes with leading zeros or followed by further
+        // digits (a conversion loop that checks overflow for "x10" but not for "+digit", or that stops
+        // checking after the first refusal, only shows on such values).  Exhausted stream -> "126".
+        inline std::string boundary_number(Choices& c, bool hex = false)
+        {
+            static const unsigned ks[] = { 7, 8, 15, 16, 31, 32, 63, 64 };
+            unsigned k                 = ks[c.pick(8)];
+            int d                      = int(c.pick(14)) - 2;
+            unsigned __int128 v        = (unsigned __int128)1 << k;
+            if (d < 0)
+                v -= unsigned(-d);
+            else
+                v += unsigned(d);
+            std::string t;
+            if (v == 0)
+                t = "0";
+            const char* digs = c.coin(128) ? "0123456789abcdef" : "0123456789ABCDEF";
+            unsigned base    = hex ? 16 : 10;
+            while (v)
+            {
+                t.insert(t.begin(), digs[unsigned(v % base)]);
+                v /= base;
+            }
+            switch (c.pick(8))
+            {
+            case 5:
+                t = std::string(1 + c.pick(3), '0') + t;
+                break;
+            case 6:
+                t += char('0' + c.pick(10));
+                break;
+            case 7:
+                t += "00";
+                break;
+            default:
+                break;
+            }
+            return t;
+        }
         inline std::string octets(Choices& c, size_t n)
         {
             // arbitrary octets with a bias towards the framing characters
@@ -456,7 +496,13 @@ namespace verif
                     {
                         size_t e = w.find("\r\n", p + 4);
                         if (e != std::string::npos)
-                            w.replace(p + 4, e - (p + 4), bad[c.pick(13)]);
+                        {
+                            unsigned bi   = c.pick(13);
+                            std::string v = bad[bi];
+                            if ((bi == 9 || bi == 10) && c.coin(200)) // the two 2^63 entries double as a slot for any edge
+                                v = boundary_number(c, true);
+                            w.replace(p + 4, e - (p + 4), v);
+                        }
                         lab = "bad-chunk-size";
                     }
                     else
@@ -501,7 +547,13 @@ namespace verif
                     static const char* cl[] = { "99999999999", "18446744073709551615", "18446744073709551616", "-5", "4294967296", "1000000" };
                     size_t q                = w.find("\r\n");
                     if (q != std::string::npos)
-                        w.insert(q + 2, std::string("Content-Length: ") + cl[c.pick(6)] + "\r\n");
+                    {
+                        unsigned ci   = c.pick(6);
+                        std::string v = cl[ci];
+                        if (ci == 4 && c.coin(200)) // "4294967296" doubles as a slot for any edge
+                            v = boundary_number(c);
+                        w.insert(q + 2, "Content-Length: " + v + "\r\n");
+                    }
                     lab = "huge-content-length";
                     break;
                 }
@@ -523,7 +575,13 @@ namespace verif
                         size_t q                = w.find(' ');
                         size_t e                = q == std::string::npos ? q : w.find(' ', q + 1);
                         if (e != std::string::npos)
-                            w.replace(q + 1, e - q - 1, bs[c.pick(6)]);
+                        {
+                            unsigned si   = c.pick(6);
+                            std::string v = bs[si];
+                            if (si == 4 && c.coin(200)) // the overlong status doubles as a slot for any edge
+                                v = boundary_number(c);
+                            w.replace(q + 1, e - q - 1, v);
+                        }
                     }
                     lab = "bad-method-or-status";
                     break;
@@ -534,7 +592,17 @@ namespace verif
                                                 "Authorization: Basic !!!!", "Expect: 100-continue", "Content-Type: text/plain; q=", "Date: Sun, 06 Nov 99999 08:49:37 GMT" };
                     size_t q                = w.find("\r\n");
                     if (q != std::string::npos)
-                        w.insert(q + 2, std::string(tv[c.pick(18)]) + "\r\n");
+                    {
+                        unsigned ti   = c.pick(18);
+                        std::string h = tv[ti];
+                        // the entries that end in an overlong number double as number slots
+                        if ((ti == 4 || ti == 6 || ti == 9) && c.coin(200))
+                        {
+                            size_t z = h.find_last_not_of("0123456789");
+                            h        = h.substr(0, z + 1) + boundary_number(c);
+                        }
+                        w.insert(q + 2, h + "\r\n");
+                    }
                     lab = "garbage-typed-header";
                     break;
                 }
